@@ -125,6 +125,13 @@ def gen_cases(tier, seed):
                    "same_seed": True, "shortcut": rng.chance(1, 8), "env": pipeline.gen_env(rng, batch, 4, same_seed=True)}
             n += 1
         k += 1
+    for j, s in enumerate(pipeline.odd_strings()):
+        for form in ((j % 3,) if quick else (0, 1, 2)):
+            rng = Rng(derive(seed, PROP, "odd", j, form))
+            batch = "fault_free" if rng.chance(1, 2) else "benign"
+            yield {"prop": PROP, "id": "u%d" % n, "batch": batch, "kind": "string", "s": s, "raw": True, "form": form,
+                   "same_seed": True, "shortcut": rng.chance(1, 8), "env": pipeline.gen_env(rng, batch, 4, same_seed=True)}
+            n += 1
     for (name, tfiles, tentry) in pipeline.test_programs():
         if len(tfiles) != 1:
             continue
